@@ -22,6 +22,7 @@ import (
 	_ "crypto/sha512"
 	"encoding/hex"
 	"encoding/json"
+	"errors"
 	"flag"
 	"fmt"
 	"io"
@@ -1857,31 +1858,98 @@ var oracleSide *os.File
 // observations, oracle verdicts and counters into this run.  Not being able to do so is an
 // error of the run (exit != 0), never a silent pass.
 func runChild(replay string) {
-	dir := filepath.Join(run.Dir, "nonroot")
-	tmp := filepath.Join(dir, "tmp")
-	if err := os.MkdirAll(tmp, 0o755); err != nil {
-		panic(err)
+	// The unprivileged run must not depend on where the checkout lives (a run directory under
+	// /root is not traversable for uid 65534): it gets its own world-traversable directory under
+	// the system's temporary directory, a copy of this binary and of its input there.
+	envFail := func(format string, a ...any) {
+		fmt.Fprintf(os.Stderr, "C12 harness: ENVIRONMENT (not oras-go): "+format+"\n", a...)
+		run.Finish()
+		os.Exit(5)
 	}
-	for _, d := range []string{dir, tmp} {
-		if err := os.Chown(d, nonRootUID, nonRootUID); err != nil {
-			panic(err)
+	traversable := func(dir string) bool {
+		for p := dir; ; p = filepath.Dir(p) {
+			fi, err := os.Stat(p)
+			if err != nil || !fi.IsDir() || fi.Mode().Perm()&0o001 == 0 {
+				return false
+			}
+			if p == filepath.Dir(p) {
+				return true
+			}
 		}
 	}
+	base := ""
+	for _, cand := range []string{os.TempDir(), "/tmp", "/var/tmp", "/dev/shm"} {
+		if abs, err := filepath.Abs(cand); err == nil && traversable(abs) {
+			base = abs
+			break
+		}
+	}
+	if base == "" {
+		envFail("no temporary directory that uid %d can reach (tried %s, /tmp, /var/tmp, /dev/shm)", nonRootUID, os.TempDir())
+	}
+	top, err := os.MkdirTemp(base, "c12-nonroot-")
+	if err != nil {
+		envFail("cannot create a directory under %s: %v", base, err)
+	}
+	defer os.RemoveAll(top)
+	dir, tmp := filepath.Join(top, "run"), filepath.Join(top, "tmp")
+	for _, d := range []string{top, dir, tmp} {
+		if err := os.MkdirAll(d, 0o755); err != nil {
+			envFail("%v", err)
+		}
+		if err := os.Chmod(d, 0o755); err != nil {
+			envFail("%v", err)
+		}
+		if err := os.Chown(d, nonRootUID, nonRootUID); err != nil {
+			envFail("cannot give %s to uid %d: %v", d, nonRootUID, err)
+		}
+	}
+	copyTo := func(src, dst string, mode os.FileMode) {
+		data, err := os.ReadFile(src)
+		if err != nil {
+			envFail("%v", err)
+		}
+		if err := os.WriteFile(dst, data, mode); err != nil {
+			envFail("%v", err)
+		}
+		os.Chmod(dst, mode)
+	}
+	self, err := os.Executable()
+	if err != nil {
+		self = os.Args[0]
+	}
+	exe := filepath.Join(top, "hx_c12")
+	copyTo(self, exe, 0o755)
 	args := []string{"-seed", fmt.Sprint(run.Seed), "-tier", run.Tier, "-dir", dir, "-nonroot"}
 	if replay != "" {
-		args = append(args, "-replay", replay)
+		rp := filepath.Join(top, "replay.json")
+		copyTo(replay, rp, 0o644)
+		args = append(args, "-replay", rp)
 	}
 	cctx, cancel := context.WithTimeout(context.Background(), time.Duration(run.Scale(10, 60))*time.Minute)
 	defer cancel()
-	cmd := exec.CommandContext(cctx, os.Args[0], args...)
+	cmd := exec.CommandContext(cctx, exe, args...)
 	cmd.Env = append(os.Environ(), "TMPDIR="+tmp, "HOME="+dir)
 	cmd.Dir = dir
 	cmd.SysProcAttr = &syscall.SysProcAttr{Credential: &syscall.Credential{Uid: nonRootUID, Gid: nonRootUID}}
 	out, err := cmd.CombinedOutput()
 	if err != nil {
+		var ee *exec.ExitError
+		if !errors.As(err, &ee) {
+			// the process could not even be started (setuid refused, exec refused ...)
+			envFail("the unprivileged (uid %d) run could not be started: %v\n%s", nonRootUID, err, out)
+		}
 		fmt.Fprintf(os.Stderr, "C12 harness: the unprivileged (uid %d) run failed: %v\n%s\n", nonRootUID, err, out)
 		run.Finish()
 		os.Exit(3)
+	}
+	// keep a copy of what the child wrote next to this run's files
+	keep := filepath.Join(run.Dir, "nonroot")
+	os.MkdirAll(keep, 0o755)
+	for _, n := range []string{"cases.txt", "impl.txt", "oracle.txt", "oracle.jsonl", "stats.json"} {
+		if data, err := os.ReadFile(filepath.Join(dir, n)); err == nil {
+			os.WriteFile(filepath.Join(keep, n), data, 0o644)
+		}
 	}
 	read := func(name string) []string {
 		data, err := os.ReadFile(filepath.Join(dir, name))
@@ -1925,7 +1993,6 @@ func runChild(replay string) {
 		run.Finish()
 		os.Exit(3)
 	}
-	os.RemoveAll(filepath.Join(dir, "w"))
 }
 
 // enumPerms pushes, for every small-scope tree with at most four archive entries, the archive in
